@@ -42,9 +42,13 @@ def plan(tier, seed):
     edges = np.linspace(1, 10000, 33).astype(int)
     for a, b in zip(edges[:-1], edges[1:]):
         specs.append({"kind": "calendar", "y0": int(a), "y1": int(b)})
-    specs.append({"kind": "contract", "y0": 1890, "y1": 2110 if tier == "quick" else 2500})
-    specs.append({"kind": "contract", "y0": 1, "y1": 40})
-    specs.append({"kind": "contract", "y0": 9960, "y1": 10000})
+    if tier == "quick":
+        specs.append({"kind": "contract", "y0": 1890, "y1": 2110})
+        specs.append({"kind": "contract", "y0": 1, "y1": 40})
+        specs.append({"kind": "contract", "y0": 9960, "y1": 10000})
+    else:  # the class invariant watches every dekad of the calendar
+        for a, b in zip(edges[:-1:2], edges[2::2]):
+            specs.append({"kind": "contract", "y0": int(a), "y1": int(b)})
     nacc = 3 if tier == "quick" else 12
     for i in range(nacc):
         specs.append({"kind": "accessor", "n": 60 if tier == "quick" else 200, "sub": i})
